@@ -6,6 +6,7 @@
    is not); (3) the model API is a function of the arguments of the call alone (any Gallina function is), which is
    what the correspondence compares the implementation's histories and thread interleavings with. *)
 From CCT Require Import Prelude Heap.
+From CCT.Gen Require Pins.
 From CCT.Gen Require Purity.
 From CCT.proofs Require Import HeapFacts.
 Open Scope N_scope.
@@ -15,6 +16,11 @@ Theorem C12_purity_certificate :
   /\ Purity.flagged_constructs = []
   /\ Purity.wrap_uses_deepcopy = true.
 Proof. repeat split; reflexivity. Qed.
+
+(* no function of any module of the package stores into module-level state, directly or through a local alias of a
+   module-level object: nothing a call does can be seen by a later call (of the verifiers, of the serializer, of anything) *)
+Theorem C12_no_global_state_written : Purity.package_global_stores = [].
+Proof. reflexivity. Qed.
 
 (* the certificate covers the five verifiers and every checkformat_* / is_* validator *)
 Theorem C12_certificate_covers :
@@ -53,9 +59,52 @@ Example C12_witness :
   /\ locs (wrap 2 obj) = [2; 3; 4; 5].
 Proof. vm_compute. repeat split. discriminate. Qed.
 
+(* BEGIN SOURCE PINS -- written by harness/mkpins.py; the list is what Gen/Pins.v held for the tree the model was validated against *)
+(* the functions of the package this property depends on (call-graph closure of its entry points), each with the fingerprint of its
+   logic (AST without docstrings, annotations, messages, local names): the model and the correspondence runs were validated against
+   exactly these; a change of logic in any of them breaks this obligation and the check then searches for a failing input *)
+Theorem C12_source_pinned : CCT.Gen.Pins.pinned_C12 =
+  [(U"authentication._ascii", U"5f6fc6aad21f14d47c4f");
+   (U"authentication.verify_delegation", U"5dc5b9065823f0f50085");
+   (U"authentication.verify_gpg_signature", U"ccbe2bc800d02410d16b");
+   (U"authentication.verify_root", U"6692242951185dc7604b");
+   (U"authentication.verify_signable", U"1bd56f9b4f5e7bcd88d9");
+   (U"authentication.verify_signature", U"7e0a2d567df7e9f0cdd4");
+   (U"common.MixinKey.from_hex", U"a6e4e81c0b16461490a5");
+   (U"common.PrivateKey.from_bytes", U"2cb488fc935b61f65bba");
+   (U"common.PublicKey.from_bytes", U"a439db0d070397bc2b47");
+   (U"common.canonserialize", U"64fc1dee1d7349d7a920");
+   (U"common.checkformat_any_signature", U"82ba0ed515a770fad8a9");
+   (U"common.checkformat_byteslike", U"1c9da61d15ff3a1a9f97");
+   (U"common.checkformat_delegating_metadata", U"b013c9fa5677f3b3f637");
+   (U"common.checkformat_delegation", U"25fc9c6692b07cdca131");
+   (U"common.checkformat_delegations", U"d6a7d445f5f827a1471c");
+   (U"common.checkformat_gpg_fingerprint", U"86e3bb7e4431fb481dc5");
+   (U"common.checkformat_gpg_signature", U"a3c5515ffb8c9f6183ba");
+   (U"common.checkformat_hex_key", U"625afdf8f56eb4c97143");
+   (U"common.checkformat_hex_string", U"eac17f8be3d488d4b8a0");
+   (U"common.checkformat_key", U"d3466826154e389f099e");
+   (U"common.checkformat_list_of_hex_keys", U"4c9121b74cf062a7e2fd");
+   (U"common.checkformat_natural_int", U"14f9984b8b7ef6014787");
+   (U"common.checkformat_signable", U"dbb8b00a3a3727e018da");
+   (U"common.checkformat_signature", U"d544854022da28dcc399");
+   (U"common.checkformat_string", U"a139d0a4113d71e93d9f");
+   (U"common.checkformat_utc_isoformat", U"6fed4a2332e7258f7147");
+   (U"common.is_gpg_signature", U"f236e9c50126a7909e84");
+   (U"common.is_hex_key", U"63c7822022cd24f926e2");
+   (U"common.is_hex_signature", U"433f44075f931ec629d6");
+   (U"common.is_hex_string", U"35e6d253e0c21ac09fca");
+   (U"common.is_signable", U"6932517519189d75eb93");
+   (U"common.is_signature", U"cc04b1fcfd687d0beea7");
+   (U"signing.wrap_as_signable", U"aa9e0c33a445b2f5590b")].
+Proof. reflexivity. Qed.
+(* END SOURCE PINS *)
+
 Print Assumptions C12_purity_certificate.
+Print Assumptions C12_no_global_state_written.
 Print Assumptions C12_certificate_covers.
 Print Assumptions C12_deepcopy_fresh_and_equal.
 Print Assumptions C12_wrap_isolated.
 Print Assumptions C12_shallow_copy_not_isolated.
 Print Assumptions C12_witness.
+Print Assumptions C12_source_pinned.
